@@ -50,7 +50,9 @@ def pool():
             # symbols met in another order than the theory declares them / a symbol the theory does not mention
             P.App(P.Symbol('b'), P.Symbol('a')), P.App(P.Symbol('z'), P.Symbol('f')),
             # pending substitutions whose plug mentions the substituted variable itself
-            P.ESubst(P.MetaVar(1), P.EVar(0), P.App(P.Symbol('f'), P.EVar(0))), P.SSubst(P.MetaVar(1), P.SVar(0), P.App(P.Symbol('f'), P.SVar(0)))]
+            P.ESubst(P.MetaVar(1), P.EVar(0), P.App(P.Symbol('f'), P.EVar(0))), P.SSubst(P.MetaVar(1), P.SVar(0), P.App(P.Symbol('f'), P.SVar(0))),
+            # a metavariable whose only constraint is a list of application-context holes
+            P.MetaVar(3, app_ctx_holes=(P.EVar(2),))]
 
 
 LEMMAS = [('imp_refl', 1), ('bot_elim', 1), ('dneg_intro', 1), ('absurd', 2), ('peirce_bot', 1), ('and_l_imp', 2),
